@@ -1,12 +1,23 @@
 #!/bin/bash
-# runs every seeded change against the quick check of its own property; writes seeded/RESULTS.txt
+# runs every seeded change (seeded/<ID> and seeded/<ID>b) against the quick check of its own property, each in its own
+# scratch worktree (never in /repo); writes seeded/RESULTS.txt. Up to 3 run at a time.
 cd /verif
 out=seeded/RESULTS.txt
-: > $out
+tmp=$(mktemp -d)
+run() { n=$1; p=${n:0:3}; tools/seedrun.sh $n $p > $tmp/$n.txt 2>&1; }
+i=0
 for d in seeded/C*/; do
   n=$(basename $d)
-  r=$(tools/seedrun.sh $n $n | grep "^seed=")
-  v=$(grep -c "^VIOLATION" out/seed_${n}_${n}.log)
+  run $n &
+  i=$((i+1)); if [ $((i % 3)) -eq 0 ]; then wait; fi
+done
+wait
+: > $out
+for d in seeded/C*/; do
+  n=$(basename $d); p=${n:0:3}
+  r=$(grep "^seed=" $tmp/$n.txt)
+  v=$(grep -c "^VIOLATION" out/seed_${n}_${p}.log)
   echo "$r violations=$v" >> $out
 done
+rm -rf $tmp
 cat $out
